@@ -395,6 +395,16 @@ func c16ReadLoop(w *World, r *Report) {
 					writeBlocks[wr.Block()] = true
 				}
 			}
+			// a helper that writes the chunk it is given (writeFully(out, buf[:n]))
+			for _, hc := range calls(fn, false, func(c ssa.CallInstruction) bool { return c16SliceWriterParam(c.Common().StaticCallee()) >= 0 }) {
+				pi := c16SliceWriterParam(hc.Common().StaticCallee())
+				if pi < len(hc.Common().Args) {
+					a := hc.Common().Args[pi]
+					if sl, ok := a.(*ssa.Slice); ok && sl.X == buf {
+						writeBlocks[hc.Block()] = true
+					}
+				}
+			}
 			construct := "bytes read together with EOF are written #" + ordinal(fn, rd)
 			if len(writeBlocks) == 0 || cnt == nil {
 				r.Fail("C16-d", fnName(fn), construct, w.relFile(rd.Pos()), "the buffer filled by this Read is never written to the destination (or its count is ignored)")
@@ -548,9 +558,30 @@ func c16CopyShape(w *World, r *Report) {
 	// from the loop body without passing the exclusion edge (structural: they exist in the loop)
 	// copyOneFile: bytes written derive from bytes read
 	n := 0
-	for _, cc := range calls(cof, false, func(c ssa.CallInstruction) bool { return methodCallSig(c, "Write", 1, 2) }) {
+	type writeSite struct {
+		fn   *ssa.Function
+		call ssa.CallInstruction
+		data ssa.Value
+	}
+	var sites []writeSite
+	for _, f := range c16CopyFns(w) {
+		for _, cc := range calls(f, false, func(c ssa.CallInstruction) bool { return methodCallSig(c, "Write", 1, 2) }) {
+			if c16SliceWriterParam(f) >= 0 {
+				continue // a chunk-writing helper: judged where it is called with the chunk
+			}
+			sites = append(sites, writeSite{f, cc, argsOf(cc)[0]})
+		}
+		for _, hc := range calls(f, false, func(c ssa.CallInstruction) bool { return c16SliceWriterParam(c.Common().StaticCallee()) >= 0 }) {
+			pi := c16SliceWriterParam(hc.Common().StaticCallee())
+			if pi < len(hc.Common().Args) {
+				sites = append(sites, writeSite{f, hc, hc.Common().Args[pi]})
+			}
+		}
+	}
+	for _, ws := range sites {
+		cc, data := ws.call, ws.data
+		cof := ws.fn
 		n++
-		data := argsOf(cc)[0]
 		p := w.prov(data, provOpts{throughExternal: true})
 		fromRead := p.hasCall(func(rt Root) bool {
 			return rt.Fn != nil && fullFuncName(rt.Fn) == "io.ReadAll"
@@ -572,13 +603,15 @@ func c16CopyShape(w *World, r *Report) {
 	}
 	// short write is an error
 	short := false
-	allInstrs(cof, func(ins ssa.Instruction) {
-		if ld, ok := ins.(*ssa.UnOp); ok && ld.Op == token.MUL {
-			if g, ok := ld.X.(*ssa.Global); ok && g.Name() == "ErrShortWrite" {
-				short = true
+	for _, f := range c16CopyFns(w) {
+		allInstrs(f, func(ins ssa.Instruction) {
+			if ld, ok := ins.(*ssa.UnOp); ok && ld.Op == token.MUL {
+				if g, ok := ld.X.(*ssa.Global); ok && g.Name() == "ErrShortWrite" {
+					short = true
+				}
 			}
-		}
-	})
+		})
+	}
 	r.Check(short, "C16-d", fnName(cof), "short write is an error", w.relFile(cof.Pos()), "", "a short write is not turned into an error")
 }
 
@@ -743,4 +776,42 @@ func c16SkipDir(w *World, r *Report) {
 	if n == 0 {
 		r.Ok("C16-f", "sync", "no fs.SkipDir return in package sync", "sync", "")
 	}
+}
+
+// c16CopyFns: copyOneFile and the in-package functions it calls (two levels): the copy loop may live in phase helpers.
+func c16CopyFns(w *World) []*ssa.Function {
+	cof := w.Func("sync", "copyOneFile")
+	fns := []*ssa.Function{cof}
+	seen := map[*ssa.Function]bool{cof: true}
+	for d := 0; d < 2; d++ {
+		for _, f := range append([]*ssa.Function{}, fns...) {
+			for _, c := range calls(f, false, func(c ssa.CallInstruction) bool { return true }) {
+				if h := c.Common().StaticCallee(); h != nil && w.fnSet[h] && w.pkgOf(h) == "sync" && !seen[h] && h.Blocks != nil {
+					seen[h] = true
+					fns = append(fns, h)
+				}
+			}
+		}
+	}
+	return fns
+}
+
+// c16SliceWriterParam: h hands (a window of) one of its []byte parameters to Write: returns that parameter's index, -1 if none.
+func c16SliceWriterParam(h *ssa.Function) int {
+	if h == nil || h.Blocks == nil {
+		return -1
+	}
+	for _, wr := range calls(h, false, func(c ssa.CallInstruction) bool { return methodCallSig(c, "Write", 1, 2) }) {
+		d := argsOf(wr)[0]
+		if sl, ok := d.(*ssa.Slice); ok {
+			d = sl.X
+		}
+		d = unspillParam(d)
+		for i, p := range h.Params {
+			if ssa.Value(p) == d && isByteSlice(p.Type()) {
+				return i
+			}
+		}
+	}
+	return -1
 }
